@@ -91,6 +91,29 @@ def alongDense (f : List Ext → List Ext) (t : PT) (dim next : Nat) : Option PT
         some { d with physical := d.physical.map (fun x => (f [x])[0]?.getD x), default := (f [d.default])[0]?.getD d.default }
       else none
 
+/-- reduce every fibre along dimension `dim` with `g`, the way `norm(p, dim, keepdim)` does: make the dimension dense, reduce
+along the physical axis that carries it (which disappears), give the unbacked cells the value `g` gives to a constant
+fibre of defaults; `g` is a parameter (the p-norm is not a rational function).  For a dimension of size 1 the library
+takes the absolute value of the single element: `g1` is that function (`g [x]`). -/
+def reduceDense (g : List Ext → Ext) (t : PT) (dim : Nat) (keepdim : Bool) (next : Nat) : Option PT :=
+  match dimToDense t dim next with
+  | none => none
+  | some d =>
+    let vaxes := if keepdim then d.vaxes.set dim unitAxis else d.vaxes.eraseIdx dim
+    match d.vaxes[dim]? with
+    | none => none
+    | some (.phys v n) =>
+      let i := d.paxes.findIdx (·.1 == v)
+      let sizes := d.paxes.map (·.2)
+      let paxes' := d.paxes.eraseIdx i
+      let physical := (Ax.assigns (paxes'.map (·.2))).map (fun idx =>
+        g ((List.range n).map (fun j => d.physical[Ax.flat sizes (idx.take i ++ [j] ++ idx.drop i)]?.getD d.default)))
+      some (Bn.normalize { physical := physical, paxes := paxes', vaxes := vaxes, default := g (List.replicate n d.default) })
+    | some e =>
+      if isUnit e then
+        some { d with physical := d.physical.map (fun x => g [x]), vaxes := vaxes, default := g [d.default] }
+      else none
+
 /-- `log_softmax` of a vector, in floating point (for the correspondence only: the theorem is about an arbitrary `f`) -/
 def extToFloat : Ext → Float
   | .nan => 0.0 / 0.0
@@ -140,6 +163,24 @@ def handle : List String → Option (Except String String)
           let n := match dd.vaxes[d]? with | some (.phys _ n) => n | _ => 1
           let dflt := (logSoftmaxF (List.replicate n (extToFloat dd.default)))[0]?.getD 0.0
           pure s!"ok {showList (fun (x : Float) => toString x.toBits) vals} {showList (fun (p : Nat × Nat) => s!"{p.1} {p.2}") r.paxes} {showList showAxis r.vaxes} {dflt.toBits} {showBool ({ r with physical := dd.physical }).wf}"
+  | "C06.normPattern" :: rest => some do
+      -- the PATTERN of norm(p, dim, keepdim) and its values through a floating-point p-norm
+      let (t, d, keep, pn, next) ← Tok.run (do let t ← parsePT; let d ← Tok.nat; let k ← Tok.bool; let pn ← Tok.nat; let n ← Tok.nat; pure (t, d, k, pn, n)) rest
+      match reduceDense (fun l => l.headD (.fin 0)) t d keep next, dimToDense t d next with
+      | some r, some dd =>
+        let normF := fun (xs : List Float) =>
+          if pn == 1 then xs.foldl (fun a x => a + Float.abs x) 0.0
+          else Float.sqrt (xs.foldl (fun a x => a + x * x) 0.0)
+        let (vals, dflt) : List Float × Float := match dd.vaxes[d]? with
+          | some (.phys v n) =>
+            let i := dd.paxes.findIdx (·.1 == v)
+            let sizes := dd.paxes.map (·.2)
+            ((Ax.assigns ((dd.paxes.eraseIdx i).map (·.2))).map (fun idx =>
+              normF ((List.range n).map (fun j => extToFloat (dd.physical[Ax.flat sizes (idx.take i ++ [j] ++ idx.drop i)]?.getD dd.default)))),
+             normF (List.replicate n (extToFloat dd.default)))
+          | _ => (dd.physical.map (fun x => normF [extToFloat x]), normF [extToFloat dd.default])
+        pure s!"ok {showList (fun (x : Float) => toString x.toBits) vals} {showList (fun (p : Nat × Nat) => s!"{p.1} {p.2}") r.paxes} {showList showAxis r.vaxes} {dflt.toBits}"
+      | _, _ => pure "raises"
   | "C06.tolist" :: rest => some do
       let (t, next) ← Tok.run (do let t ← parsePT; let n ← Tok.nat; pure (t, n)) rest
       match tolist 16 t next with
